@@ -613,9 +613,11 @@ func (b *Body) checkStringAccessors(l *Ledger) {
 			l.add("R-DISPATCH", b.Name, key, "", Undecided, "accessor not found", false)
 			continue
 		}
+		// the lookup of the member: comma-ok, or plain — the members are pointers, and the nil
+		// a plain lookup yields for an absent member is refused together with a null one
 		var lk *ssa.Lookup
 		allInstrs(fn, func(i ssa.Instruction) {
-			if x, ok := i.(*ssa.Lookup); ok && x.CommaOk {
+			if x, ok := i.(*ssa.Lookup); ok {
 				if k, ok := strConst(x.Index); ok && k == spec.member {
 					lk = x
 				}
@@ -626,6 +628,10 @@ func (b *Body) checkStringAccessors(l *Ledger) {
 			continue
 		}
 		var okv, objv ssa.Value
+		plain := !lk.CommaOk
+		if plain {
+			objv = lk
+		}
 		for _, ex := range extractOf(lk, 1) {
 			okv = ex
 		}
@@ -646,6 +652,9 @@ func (b *Body) checkStringAccessors(l *Ledger) {
 			}
 			if objv != nil && knownNonNilAt(objv, r.Block()) {
 				nonNull = true
+			}
+			if plain && nonNull {
+				present = true
 			}
 			if !present || !nonNull {
 				bad = fmt.Sprintf("the successful return at %s is not confined to `member present && member != null` (present: %v, non-null: %v): a missing or null %q is accepted", b.posOf(r), present, nonNull, spec.member)
@@ -1970,7 +1979,7 @@ func (b *Body) checkOperationShape(l *Ledger) {
 	}
 	var lk *ssa.Lookup
 	allInstrs(kind, func(i ssa.Instruction) {
-		if x, ok := i.(*ssa.Lookup); ok && x.CommaOk {
+		if x, ok := i.(*ssa.Lookup); ok {
 			if k, ok := strConst(x.Index); ok && k == "op" {
 				lk = x
 			}
@@ -1981,6 +1990,10 @@ func (b *Body) checkOperationShape(l *Ledger) {
 		return
 	}
 	var okv, objv ssa.Value
+	plain := !lk.CommaOk
+	if plain {
+		objv = lk
+	}
 	for _, ex := range extractOf(lk, 1) {
 		okv = ex
 	}
@@ -2000,6 +2013,9 @@ func (b *Body) checkOperationShape(l *Ledger) {
 		}
 		if objv != nil && knownNonNilAt(objv, r.Block()) {
 			nonNull = true
+		}
+		if plain && nonNull {
+			present = true
 		}
 		if !present || !nonNull {
 			bad = "a decoded kind is returned at " + b.posOf(r) + " without the member being known present and non-null"
